@@ -138,10 +138,14 @@ def std : Codecs := { enc := enc, dec := dec, setFmt := setFmt }
 
 /-- the nested types whose decoder reads a prefix of its input and leaves the rest alone (all but
     `SMB_NMPIPE_STATUS`, which rejects trailing bytes — finding `nmpipe_trailing` —, `Dialects`, which
-    decodes to the end of its input, and `SMB_DIRECTORY_INFORMATION`): the types for which the codec
-    laws of the generic C04 round trip are proved -/
-def lawfulTypes : List String :=
+    decodes to the end of its input, and `SMB_DIRECTORY_INFORMATION`) -/
+def openTypes : List String :=
   ["SMB_STRING", "OEM_STRING", "SMB_DATE", "SMB_TIME", "FILETIME", "SMB_FILE_ATTRIBUTES", "LOCKING_ANDX_RANGE64",
    "SMB_RESUME_KEY"]
+
+/-- the types for which the codec laws of the generic C04 round trip are proved: `openTypes`, and
+    `SMB_NMPIPE_STATUS`, whose decoder accepts exactly its two bytes (`SmbIR.exactLen`: lawful through a
+    window of that size only) -/
+def lawfulTypes : List String := openTypes ++ ["SMB_NMPIPE_STATUS"]
 
 end Manticore.SmbCodecs
